@@ -23,8 +23,28 @@ OVERFLOW_KINDS = ("overflow:add", "overflow:sub", "overflow:mul", "overflow:neg"
 
 
 def load_triage():
+    from .engine_a import normalise_key
+    from .engine_fp import norm_fp
     t = C.load_json(TRIAGE_PATH, default={"entries": []})
-    return {e["key"]: e for e in t["entries"]}
+    out = {}
+    for e in t["entries"]:
+        e = dict(e)
+        e["key"] = normalise_key(e["key"])
+        for f in ("fingerprints", "caller_fingerprints"):
+            if e.get(f) is not None:
+                e[f] = sorted({norm_fp(x) for x in e[f]})
+        old = out.get(e["key"])
+        if old is None:
+            out[e["key"]] = e
+            continue
+        # two recorded keys that differ only in an assigning frame: one entry for both
+        if old.get("applies") != e.get("applies"):
+            raise ValueError("table entries %r collide after normalisation with different conditions" % e["key"])
+        old["max_distinct_locations"] = old.get("max_distinct_locations", 0) + e.get("max_distinct_locations", 0)
+        for f in ("fingerprints", "caller_fingerprints"):
+            if old.get(f) is not None or e.get(f) is not None:
+                old[f] = sorted(set(old.get(f) or []) | set(e.get(f) or []))
+    return out
 
 
 def load_libs():
